@@ -36,7 +36,7 @@ def check(tier, seed, replay=None):
     meta = {}
     if replay:
         c = json.load(open(replay))
-        cases = [{k: c[k] for k in ("id", "sense", "obj", "cons", "dom", "text", "may_reject") if k in c}]
+        cases = [{k: c[k] for k in ("id", "sense", "obj", "cons", "dom", "text", "may_reject", "realdom") if k in c}]
     else:
         cs, g, d = core.gen_cases(lin.SPEC_DIR, "ModelGen.tla", "GenG.cfg", "genG", workers=8)
         for i, c in enumerate(cs):
@@ -69,8 +69,20 @@ def check(tier, seed, replay=None):
         os_ = [m for m in doors.operand_models(tier, seed, meta, assoc_all=True) if not m.get("illtyped")]
         for c in os_:
             c["may_reject"] = True
+        # family R: every third G / H model again with its integer variables declared as bounded Reals
+        rs = []
+        for i, c in enumerate(cs + hs):
+            if i % 3 == seed % 3 and any(d["kind"] == "int" for d in c["dom"]):
+                r = json.loads(json.dumps(c))
+                r["id"] = c["id"] + "_r"
+                r["realdom"] = True
+                for d in r["dom"]:
+                    if d["kind"] == "int":
+                        d["kind"] = "real"
+                rs.append(r)
+        meta["R"] = {"cases": len(rs)}
         cases = []
-        for i, c in enumerate(cs + hs + ks + os_):
+        for i, c in enumerate(cs + hs + ks + os_ + rs):
             style = (i + seed) % 2
             c["text"] = render.program_min(c, style=style, named=(i % 3 == 0))
             c["style"] = style
@@ -80,7 +92,7 @@ def check(tier, seed, replay=None):
     byid = {e["id"]: e for e in events}
     for r in v.rejects:
         ev = byid.get(r[2], {})
-        o.violation(f"{r[3]}:{ev.get('text')}", {k: ev.get(k) for k in ("id", "sense", "obj", "cons", "dom", "text", "may_reject") if k in ev},
+        o.violation(f"{r[3]}:{ev.get('text')}", {k: ev.get(k) for k in ("id", "sense", "obj", "cons", "dom", "text", "may_reject", "realdom") if k in ev},
                     f"{r[3]}\n{ev.get('text')}\n-> {ev.get('out')} {ev.get('kind','')} {ev.get('why','')[:200]} point={[(p['name'], p['v']['n'], p['v']['d']) for p in ev.get('point', [])]} value={ev.get('value', {}).get('n')}/{ev.get('value', {}).get('d')}")
     outs = {}
     for s in v.stats:
